@@ -32,7 +32,7 @@ ASSUMPTIONS = [
 ]
 PROBES = ["faulty_link_before_injection", "threaded.runs", "threaded.preempted_in_proxy", "kind.error", "kind.rstack", "kind.silent", "kind.lost", "kind.eof", "kind.close", "workload.idle", "workload.one", "workload.queued",
           "workload.reset", "workload.startup", "reported", "reported_twice", "silent_detected_by_retries", "silent_during_reset_timeout",
-          "data_received_raised", "inject_at_timer_deadline", "calls_in_progress_at_injection", "caller_cancelled_after_injection", "sched.batch", "sched.reorder", "sched.join"]
+          "data_received_raised", "inject_at_timer_deadline", "calls_in_progress_at_injection", "caller_cancelled_after_injection", "failure_before_registration", "sched.batch", "sched.reorder", "sched.join"]
 
 WORKLOADS = ("idle", "one", "queued", "reset", "startup")
 KINDS = ("error", "rstack", "silent", "lost", "eof", "close")
@@ -63,6 +63,9 @@ def plan(tier):
                     codes = (None,)
                 for c in codes:
                     sweeps.append(("inject", {"workload": w, "kind": kind, "code": c, "at": at, "sched": False}))
+                if kind in ("error", "rstack", "lost", "eof", "close") and w in ("idle", "one") and at in pts[:3]:
+                    # the same failure after an earlier one that went unheard (before the application registered)
+                    sweeps.append(("inject", {"workload": w, "kind": kind, "code": codes[0], "at": at, "sched": False, "prefail": True}))
                 if kind == "silent" and w in ("idle", "one", "queued"):
                     # the callers give up (are cancelled) while the link layer is still retrying: the failure must be reported all the same
                     for ca in (2.0, 12.0):
@@ -82,7 +85,8 @@ def run(scenario, params, tape, detail=False):
     if scenario == "threaded":
         return run_threaded_one(params, tape, detail)
     if scenario == "inject":
-        return run_one(params["workload"], params["kind"], params["code"], params["at"], tape, params.get("sched", True), detail, cancel_after=params.get("cancel_after"))
+        return run_one(params["workload"], params["kind"], params["code"], params["at"], tape, params.get("sched", True), detail, cancel_after=params.get("cancel_after"),
+                       prefail=params.get("prefail", False))
     w = WORKLOADS[tape.draw(len(WORKLOADS), "workload")]
     kind = KINDS[tape.draw(len(KINDS), "kind")]
     code = None
@@ -90,13 +94,14 @@ def run(scenario, params, tape, detail=False):
         code = ERR_CODES[tape.draw(len(ERR_CODES), "code")]
     elif kind == "rstack":
         code = RST_CODES[tape.draw(len(RST_CODES), "code")]
-    return run_one(w, kind, code, ("draw",), tape, True, detail, faulty=(scenario == "faulty"))
+    prefail = kind != "silent" and scenario != "faulty" and tape.draw(5, "prefail") == 4
+    return run_one(w, kind, code, ("draw",), tape, True, detail, faulty=(scenario == "faulty"), prefail=prefail)
 
 
 CANCEL_AFTER = (0.3, 1.0, 2.5, 6.0, 11.0, 13.0)
 
 
-def run_one(workload, kind, code, at, tape, sched, detail, dry=False, faulty=False, cancel_after=None):
+def run_one(workload, kind, code, at, tape, sched, detail, dry=False, faulty=False, cancel_after=None, prefail=False):
     sock = workload == "startup"
     if faulty:
         # link faults (and read chunking, NCP window) until the injection; the failure itself is then delivered over a clean line
@@ -162,7 +167,10 @@ def run_one(workload, kind, code, at, tape, sched, detail, dry=False, faulty=Fal
             probe("calls_in_progress_at_injection")
         rig.log.append((loop.time(), "INJECT", kind, code))
         if kind == "error":
-            nash.force_error(code)
+            if nash.failed is not None:
+                nash.emit(R.f_error(code), "error")  # an NCP that is already in its ERROR state says so again
+            else:
+                nash.force_error(code)
         elif kind == "rstack":
             nash.do_reset(code)
         elif kind == "silent":
@@ -188,6 +196,11 @@ def run_one(workload, kind, code, at, tape, sched, detail, dry=False, faulty=Fal
                 reports.append((loop.time(), args, len(rig.host_writes), ez.is_ezsp_running))
                 rig.log.append((loop.time(), "REPORT", repr(args)))
 
+        if prefail and not dry:
+            # an earlier failure that nobody was listening for: ERROR before the application registered (ignored by design), no reset since
+            probe("failure_before_registration")
+            nash.force_error(0x51)
+            await asyncio.sleep(0.05)
         ez.add_callback(cb)
         await asyncio.sleep(0.1)
         st["t_ready"] = loop.time()
